@@ -96,7 +96,7 @@ func init() { register(c02{}) }
 func (c02) ID() string    { return "C02" }
 func (c02) Level() string { return "exploration" }
 func (c02) Rule() string {
-	return "one case = one accepted configuration + 1..4 browser intents (origin: matching or near-miss of a pattern; method as the page wrote it; subset of a 10-name CORS-unsafe header universe incl. authorization; credentials include/omit; private-network target yes/no) + 0..3 in-flight alterations of Access-Control-Request-Headers within the documented tolerance; the debug-off and debug-on middlewares reach their state through one of six API routes (fresh, zero value+Reconfigure, via another configuration, through passthrough, via Reconfigure(Config()), via a Config value edited in place and passed again); every intent is run four ways in the same simulated world (debug off/on x alterations off/on) as a full protocol run (preflight when Fetch requires one, then the actual request); distinct = distinct plan hash; non-trivial = at least one intent needed a preflight"
+	return "one case = one accepted configuration + 1..4 browser intents (origin: matching or near-miss of a pattern; method as the page wrote it; subset of a 10-name CORS-unsafe header universe incl. authorization; credentials include/omit; private-network target yes/no) + 0..3 in-flight alterations of Access-Control-Request-Headers within the documented tolerance; the debug-off and debug-on middlewares reach their state through one of six API routes (fresh, zero value+Reconfigure, via another configuration, through passthrough, via Reconfigure(Config()), via a Config value edited in place and passed again) or, a third of the time, through a random walk of up to four operator calls (SetDebug on/off, Reconfigure to the other configuration, to nil, to this one) before the final Reconfigure(cfg), SetDebug(mode); every intent is run four ways in the same simulated world (debug off/on x alterations off/on) as a full protocol run (preflight when Fetch requires one, then the actual request); distinct = distinct plan hash; non-trivial = at least one intent needed a preflight"
 }
 func (c02) Budget(tier string) (int, time.Duration) {
 	if tier == "thorough" {
@@ -317,6 +317,11 @@ func (c02) Gen(r *R, tier string) any {
 		o := genCfg(r)
 		p.Other = &o
 		p.Routes = [2]int{r.Intn(6), r.Intn(6)}
+		for i := range p.Routes { // a third of the routes: a random walk through the operator API (viaRoute)
+			if r.P(0.33) {
+				p.Routes[i] = 6 + r.Intn(3*625)
+			}
+		}
 	}
 	k := pick(r, []int{0, 1, 2, 3, 3, 4, 6})
 	kinds := []string{"ows_left", "ows_right", "ows_both", "empty", "empty", "split", "split", "empty_line"}
@@ -803,10 +808,63 @@ func viaRoute(route int, cfg Cfg, other *Cfg, debug bool, c *Ctx) (m *cors.Middl
 	if other == nil {
 		route = 0
 	}
-	route %= 6
+	walk := -1
+	if route >= 6 {
+		walk, route = route-6, 6
+	} else {
+		route %= 6
+	}
 	pan := catch(func() {
 		cc := cfg.Config()
 		switch route {
+		case 6:
+			// a random walk: start (the other configuration, this one, or the zero value), then
+			// up to four operator calls read off the route number, then whatever it takes to be in
+			// (cfg, debug): Reconfigure(cfg), SetDebug(debug). What an earlier state left behind
+			// (a flag, a memo computed under another configuration) must not show.
+			start := walk % 3
+			walk /= 3
+			switch start {
+			case 0:
+				m, _ = mkMW(other.Config())
+			case 1:
+				m, _ = mkMW(cfg.Config())
+			default:
+				m = zeroMW()
+			}
+			if m == nil {
+				return
+			}
+			for i := 0; i < 4 && walk > 0; i++ {
+				clockTick("a step of the route")
+				switch walk % 5 {
+				case 0:
+					m.SetDebug(true)
+				case 1:
+					m.SetDebug(false)
+				case 2:
+					oc := other.Config()
+					if m.Reconfigure(&oc) != nil {
+						m = nil
+						return
+					}
+				case 3:
+					m.Reconfigure(nil)
+				case 4:
+					c2 := cfg.Config()
+					if m.Reconfigure(&c2) != nil {
+						m = nil
+						return
+					}
+				}
+				walk /= 5
+			}
+			clockTick("the last step of the route")
+			if m.Reconfigure(&cc) != nil {
+				m = nil
+				return
+			}
+			m.SetDebug(debug)
 		default:
 			var err error
 			if m, err = mkMW(cc); err != nil {
@@ -1090,6 +1148,15 @@ func (c02) Shrink(plan any) []any {
 				q := *p
 				q.Routes[i] = 0
 				out = append(out, &q)
+			}
+			if w := p.Routes[i] - 6; w >= 0 { // a shorter walk: drop its last steps
+				for _, mod := range []int{3, 15, 75, 375} {
+					if w%mod != w {
+						q := *p
+						q.Routes[i] = 6 + w%mod
+						out = append(out, &q)
+					}
+				}
 			}
 		}
 	}
